@@ -1,5 +1,6 @@
 import Memterm.Proofs.InvStep
 import Memterm.Spec.C06
+import Memterm.Proofs.DrawFrame
 
 /-
   C06 — Scrolling and line insertion/deletion stay inside the scrolling region.
@@ -302,6 +303,92 @@ theorem C06_holds (env : Env) (cands : List Nat) (s : Screen) (c : Call) (h : In
     · show SameRest s (setMargins s top bottom)
       rw [e]
       exact ⟨rfl, rfl, rfl, rfl, rfl, rfl, rfl, rfl, rfl, rfl, rfl, rfl, rfl, rfl⟩
+
+/-! #### autowrap -/
+
+/-- IRM shifting and the character store touch only the cursor row, and leave the cursor on it -/
+theorem put_other_rows (s : Screen) (c w y x : Nat) (hy : y ≠ s.cursor.y) :
+    (putChar (irmStage s w) c w).cell y x = s.cell y x := by
+  have hy' : (y == s.cursor.y) = false := by simpa using hy
+  unfold putChar irmStage
+  by_cases hI : s.mode IRM = true <;>
+    by_cases hw : (w == 2 && decide (s.cursor.x + 1 < s.columns)) = true <;>
+    simp [hI, hw, hy', hy, insertCharacters, markDirty, setCell, setCursorX]
+
+theorem put_cursor_y (s : Screen) (c w : Nat) : (putChar (irmStage s w) c w).cursor.y = s.cursor.y := by
+  unfold putChar irmStage
+  by_cases hI : s.mode IRM = true <;>
+    by_cases hw : (w == 2 && decide (s.cursor.x + 1 < s.columns)) = true <;>
+    simp [hI, hw, insertCharacters, markDirty, setCell, setCursorX]
+
+theorem put_margins (s : Screen) (c w : Nat) : (putChar (irmStage s w) c w).margins = s.margins := by
+  unfold putChar irmStage
+  by_cases hI : s.mode IRM = true <;>
+    by_cases hw : (w == 2 && decide (s.cursor.x + 1 < s.columns)) = true <;>
+    simp [hI, hw, insertCharacters, markDirty, setCell, setCursorX]
+
+/-- AUTOWRAP: a printable character drawn at the pending-wrap position on the bottom margin with
+    DECAWM set scrolls the region up by exactly one line - every row other than the cursor row is
+    what `index` documents - and leaves the cursor row and the margins unchanged. -/
+theorem wrap_scrolls (env : Env) (s : Screen) (t : List Nat) (h : Inv s) :
+    propC06wrap env s (.draw t) (draw env s t) = true := by
+  unfold propC06wrap
+  simp only
+  split
+  · rename_i hw
+    match t, hw with
+    | [c], hw =>
+      simp only [wrapsAtBottom, Bool.and_eq_true, beq_iff_eq] at hw
+      obtain ⟨⟨⟨hW, hx⟩, ha⟩, hb⟩ := hw
+      -- the wrap stage is carriage return + linefeed on the bottom margin
+      have hu : Inv (cariageReturn (markDirty s s.cursor.y)) := inv_cariageReturn (inv_markDirty h _ h.cy)
+      have hub : (cariageReturn (markDirty s s.cursor.y)).cursor.y = bottomMargin (cariageReturn (markDirty s s.cursor.y)) := hb
+      obtain ⟨i1, _, i3, _⟩ := index_spec _ hu
+      have hcell : ∀ y x, (linefeed (cariageReturn (markDirty s s.cursor.y))).cell y x =
+          rowsUp s (topMargin s) (bottomMargin s) 1 y x := by
+        intro y x
+        have : (linefeed (cariageReturn (markDirty s s.cursor.y))).cell = (index (cariageReturn (markDirty s s.cursor.y))).cell := by
+          unfold linefeed; simp only; split <;> rfl
+        rw [this, i1]
+        simp only [expectIndex, atBottom, hub, if_true]
+        rfl
+      have hcy : (linefeed (cariageReturn (markDirty s s.cursor.y))).cursor.y = s.cursor.y := by
+        have : (linefeed (cariageReturn (markDirty s s.cursor.y))).cursor.y = (index (cariageReturn (markDirty s s.cursor.y))).cursor.y := by
+          unfold linefeed; simp only; split <;> rfl
+        rw [this, i3]
+        simp only [expectIndex, atBottom, hub, if_true]
+        exact hb.symm
+      have hmg : (linefeed (cariageReturn (markDirty s s.cursor.y))).margins = s.margins :=
+        (ss_linefeed _).2.2.2.2.1
+      have hd : draw env s [c] =
+          markDirty (putChar (irmStage (linefeed (cariageReturn (markDirty s s.cursor.y))) (env.W (translate s c)))
+            (translate s c) (env.W (translate s c)))
+            (putChar (irmStage (linefeed (cariageReturn (markDirty s s.cursor.y))) (env.W (translate s c)))
+              (translate s c) (env.W (translate s c))).cursor.y := by
+        simp only [draw, List.map_cons, List.map_nil, List.foldl_cons, List.foldl_nil, drawChar, hW, if_true,
+          wrapStage, hx, beq_self_eq_true, ha]
+      rw [hd]
+      simp only [Bool.and_eq_true, allCellsB_iff, beq_iff_eq, Bool.or_eq_true, decide_eq_true_eq]
+      refine ⟨⟨?_, ?_⟩, ?_⟩
+      · intro y x _ _
+        by_cases hy : y = s.cursor.y
+        · left; exact hy
+        · right
+          show (putChar _ _ _).cell y x = _
+          rw [put_other_rows _ _ _ _ _ (by rw [hcy]; exact hy), hcell]
+      · show (putChar _ _ _).cursor.y = _
+        rw [put_cursor_y, hcy]
+      · show (putChar _ _ _).margins = _
+        rw [put_margins, hmg]
+  · rfl
+
+/-- non-vacuity of the autowrap clause: region rows 1..2 of a 2x4 screen, cursor pending on the bottom margin -/
+example :
+    let env : Env := { W := fun _ => 1, CM := fun _ => false, NFC := id }
+    let s := draw env (cursorPosition (setMargins (init 2 4) (some 2) (some 3)) (some 3) (some 1)) [97, 98]
+    wrapsAtBottom env s [99] = true ∧ (draw env s [99]).cursor.y = 2 ∧
+      display env (draw env s [99]) = [[32, 32], [97, 98], [99, 32], [32, 32]] := by
+  decide
 
 /-! #### dispatch -/
 theorem dispatch_IND : escapeDispatch 68 = [.index] := by rfl
